@@ -11,6 +11,9 @@ Suites
                      the implementation's own parse
   COMPARE-small      exhaustive pairs of short key sequences (duplicates included)
   COMPARE-junkkey    a localization key equal to the generated key of a reference Junk
+  E2E-properties     the same .properties cases through the TEXT-level model compare_properties (parser
+                     model, unescape, count_words, Junk keys, comparison): only the two texts, the
+                     filter and the checker's findings are passed
   ADD-<fmt>          ContentComparer.add for a missing file
   COUNTWORDS         Entry.count_words against its model (regex engine on re_br / re_sgml regenerated
                      from the source): values assembled from words and markup chunks (count known by
@@ -33,7 +36,7 @@ import tempfile
 from harness import common, rxsuite
 from harness.common import Model, s2l
 
-FACTS = ("tables", "c03")
+FACTS = ("tables", "parser", "c02", "c03")
 RUNNERS = ["RX"]
 
 RULE = ("per format (properties, dtd, ini, inc, ftl, android strings.xml, po): seeded (reference records, "
@@ -694,9 +697,30 @@ def post(tables, merge, out, quiet=0):
                 tables.canon_model_notes(det), summ]]
 
 
+def e2e_request(tables, req, ref_text, l10n_text):
+    """the same comparison for the text-level model (compare_properties): the two TEXTS instead
+    of the parse; entities are named by the offset at which their span starts"""
+    vt, _, _, chk_sx, merge = req[1]
+    rows = [[tables.ref[i].span[0], tables.l10n[j - 1000].span[0], fs] for i, j, fs in chk_sx]
+    return (4, [vt, s2l(ref_text), s2l(l10n_text), rows, merge, 0])
+
+
+def e2e_post(tables, merge, out, quiet):
+    """offsets back to the harness's entity numbers, then as for the parse-level model"""
+    if out[0] != 0:
+        return out
+    by_off = {e.span[0]: 1000 + j for j, e in enumerate(tables.l10n)}
+    stats, notes, missings, skips, det, summ = out[1]
+
+    def fix(ns):
+        return [[4, by_off.get(n[1], -1)] if n[0] == 4 else n for n in ns]
+    return post(tables, merge, [0, [stats, fix(notes), missings, [by_off.get(i, -1) for i in skips],
+                                    fix(det), summ]], quiet)
+
+
 def suite_compare(chk, work, model, fmt, n, spicy):
     rng = chk.rng
-    reqs, impl, tabs, descs = [], [], [], []
+    reqs, impl, tabs, descs, e2e = [], [], [], [], []
     for i in range(n):
         case = gen_case(rng, fmt, spicy=spicy)
         verdicts = None
@@ -713,6 +737,8 @@ def suite_compare(chk, work, model, fmt, n, spicy):
         reqs.append(req)
         impl.append(res)
         tabs.append((tables, merge, quiet))
+        if fmt == "properties":
+            e2e.append(e2e_request(tables, req, ref_text, l10n_text))
         descs.append(desc)
         chk.hist(f"{fmt}_ref_entities", min(len(tables.ref), 9))
         for side in ("ref", "l10n"):
@@ -740,6 +766,10 @@ def suite_compare(chk, work, model, fmt, n, spicy):
         outs = model.call(reqs)
         outs = [post(t, m, o, q) for (t, m, q), o in zip(tabs, outs)]
         chk.correspond(f"COMPARE-{fmt}{'-spicy' if spicy else ''}", descs, impl, outs)
+        if e2e:
+            # texts -> report: parser model + unescape + count_words + comparison, nothing fed
+            outs = [e2e_post(t, m, o, q) for (t, m, q), o in zip(tabs, model.call(e2e))]
+            chk.correspond(f"E2E-properties{'-spicy' if spicy else ''}", descs, impl, outs)
         # the word counts the model was fed, against the model of Entry.count_words
         vals = sorted({vw for t, _, _ in tabs for vw in t.word_vals})
         if vals:
